@@ -80,6 +80,7 @@ type c11AttrSpec struct {
 	Comm   []uint32 `json:"comm,omitempty"`
 	Filler int      `json:"filler"` // -1 absent, else value length of an attribute of type 250
 	NH     []byte   `json:"nh"`
+	MP     bool     `json:"mp,omitempty"` // ipv4 with an IPv4 next hop: the route arrives with MP_REACH_NLRI instead of NEXT_HOP
 }
 
 func c11Blob(flags, typ byte, val []byte) []byte {
@@ -291,7 +292,7 @@ func c11MakePaths(fam int, a c11AttrSpec, pfx []c11Prefix, src *PeerInfo) []*Pat
 		bgp.NewPathAttributeOrigin(a.Origin),
 		bgp.NewPathAttributeAsPath([]bgp.AsPathParamInterface{bgp.NewAs4PathParam(2, append([]uint32{}, a.ASPath...))}),
 	}
-	classic := c11IsClassic(fam, a)
+	classic := c11IsClassic(fam, a) && !a.MP
 	if classic {
 		nh, err := bgp.NewPathAttributeNextHop(netip.AddrFrom4([4]byte(a.NH)))
 		if err != nil {
